@@ -74,7 +74,8 @@ HOSTILE_BYTES = [
     ("beyond-max", "f4 90 80 80 f8 88 80 80 80 41"),
     ("panic-invalid", "74 68 72 65 61 64 20 27 6d 27 20 70 61 6e 69 63 6b 65 64 20 61 74 20 ff 3c 26 0a"),
 ]
-# finding F13: the two BMP non-characters survive XmlString::new
+# former finding F13 (fixed by a19c0df, xml_safe): the two BMP non-characters survive quick-junit's
+# XmlString::new; kept as a regression scenario -- an ill-formed file is a plain violation again
 HOSTILE_KNOWN = [("nonchar-ffff", "￿"), ("nonchar-fffe", "mid￾dle"),
                  ("nonchar-panic", "thread 'main' panicked at a.rs:1:1:\nboom ￿\n")]
 
@@ -235,11 +236,11 @@ def finish_scenario(sc):
 
 
 def fixed_scenarios():
-    """corner cases that are always run, the F13 witness first"""
+    """corner cases that are always run, the regression witness of the repaired F13 first"""
     import random
     r = random.Random(0)
     out = []
-    # F13 witness: outputs containing U+FFFF / U+FFFE, stored
+    # regression of F13 (repaired): outputs containing U+FFFF / U+FFFE, stored
     tests, bt = [], {"alpha::t1": {}}
     for i, (pname, text) in enumerate(HOSTILE_KNOWN):
         name = f"k{i}"
@@ -247,7 +248,7 @@ def fixed_scenarios():
         bt["alpha::t1"][name] = {"attempts": [mk_attempt(name, 1, kind, r, text, quiet=True)]}
         tests.append({"bin": "alpha::t1", "name": name, "kind": kind, "ss": True, "sf": True,
                       "selected": True, "plan": [kind], "payloads": [pname]})
-    out.append(dict(idx=0, family="known-F13", retries=0, ss=True, sf=True, fail_fast=False, tests=tests,
+    out.append(dict(idx=0, family="regression-F13", retries=0, ss=True, sf=True, fail_fast=False, tests=tests,
                     bin_tests=bt, overrides=[], scripts=[], threads=2))
     # every hostile payload once, stored, as a failing and as a passing test, with one retry
     tests, bt = [], {"alpha::t2": {}, "beta::t1": {}}
@@ -429,8 +430,10 @@ def parse_junit(data):
                     status, nstatus = ch.tag, nstatus + 1
                 elif ch.tag in RERUN_TAGS:
                     st, mixed, marker = stored_of(ch)
+                    rso = ch.find("system-out")
                     reruns.append(dict(family=RERUN_TAGS[ch.tag][0], kind=RERUN_TAGS[ch.tag][1], stored=st,
-                                       mixed=mixed, marker=marker))
+                                       mixed=mixed, marker=marker,
+                                       out=(rso.text or "") if rso is not None else None))
                 elif ch.tag not in ("system-out", "system-err", "properties", "skipped"):
                     return None, f"unexpected child {ch.tag} of testcase"
                 if ch.tag == "skipped":
@@ -730,56 +733,135 @@ def oracle(sc, o, rep, xml_err):
     return bad
 
 
-def has_known_nonchar(sc):
-    """class predicate of finding F13: some scripted output contains U+FFFE / U+FFFF"""
-    for b in sc["puppet"]["bins"].values():
-        for t in b["tests"].values():
-            for a in t.get("attempts", []):
-                for stream in ("stdout", "stderr"):
-                    spec = a.get(stream) or {}
-                    data = bytes.fromhex(spec["hex"]) if "hex" in spec else spec.get("text", "").encode()
-                    if b"\xef\xbf\xbe" in data or b"\xef\xbf\xbf" in data:
-                        return True
-    return False
+# ------------------------------------------------------------------------------ stored text
+
+ESC = 0x1b
+# characters whose UTF-8 encoding contains the byte 0x9C (it ends a DCS passthrough even inside a
+# character), with a following continuation byte <= 0x9F / > 0x9F, and the C1 controls ST, CSI, DCS, OSC
+TRICKY = [0x9c, 0x9b, 0x90, 0x9d, 0x80, 0x85, 0x201c, 0x1700, 0x1720, 0x1c000, 0x1c820, 0x2712f, 0xdc]
+TEXT_ALPHABET = ([ESC] * 10 + [ord(c) for c in "[[]]PX^_\\01;;:<?! /mqA~hHKJ#(@`{|}"]
+                 + [0x07, 0x18, 0x1a, 0x0a, 0x0a, 0x09, 0x0d, 0x00, 0x7f, 0x1f, 0x19, 0x17]
+                 + TRICKY + [0xfffe, 0xffff, 0xfffd, 0xe9, 0x4e2d, 0x1f600, 0x10ffff, 0xa0, 0x9f])
 
 
-def strip_nonchars(data):
-    return data.replace(b"\xef\xbf\xbe", b"").replace(b"\xef\xbf\xbf", b"")
+# always run: one text per branch of the escape stripper that the random ones may miss
+FIXED_TEXTS = ["a\x1bPq\u1720Az",                  # byte 9C of E1 9C A0 ends the DCS string: orphan A0 -> U+FFFD
+               "a\x1bPq\U0001c820Bz",              # F0 9C A0 A0: two orphans -> U+FFFD U+FFFD
+               "a\x1bP1;2|\u1700\x9fAz",            # E1 9C 80: orphan 80 is executed, nothing written
+               "a\x1b]0;title\x07b\x1b]8;;x\x1b\\c",  # OSC ended by BEL / by ESC \
+               "a\x1b[31",                          # unterminated CSI at the end of the string
+               "a\x1b[3\n1;\t4mb\x1b(\nB",          # LF executed inside CSI / ESC-intermediate, TAB dropped
+               "\x1bX sos \u201c \x9c \n still \x1b\\z",  # SOS/PM/APC: 9C does not end it, LF is not executed
+               "\x1b\x1b\x7f[\x7f1\x7fmX",           # ESC ESC, DEL ignored inside sequences
+               "x\x1b[?25l\uffff\x1b\ufffe[m\ufffey",  # non-characters inside and outside sequences
+               "\x1b[1;2;3;4;5;6;7;8;9;10;11;12;13;14;15;16;17;18;19;20;21;22;23;24;25;26;27;28;29;30;31;32;33mP",
+               "\x1b[<u\x1b[>1;2:3 q\x1b[=c\x1b[0 ?x",  # private markers, intermediates, CsiIgnore
+               "\x1bP$q\x18after CAN \x1bP0?\x1aafter SUB \x1b_apc\x1b^pm"]
 
-
-# ------------------------------------------------------------------------------ character filter
 
 def char_filter_cases(r, thorough):
-    cs = list(range(0, 0x30)) + [0x7e, 0x7f, 0xa0, 0xff, 0x100, 0x7ff, 0x800, 0x2028, 0xd7ff, 0xe000, 0xfdd0,
-                                 0xfeff, 0xfffc, 0xfffd, 0x10000, 0x1fffe, 0x10ffff]
+    cs = list(range(0, 0x30)) + list(range(0x7e, 0xa2)) + [0xff, 0x100, 0x7ff, 0x800, 0x2028, 0xd7ff, 0xe000,
+                                                          0xfdd0, 0xfeff, 0xfffc, 0xfffd, 0xfffe, 0xffff,
+                                                          0x10000, 0x1fffe, 0x1ffff, 0x10fffe, 0x10ffff]
     for _ in range(60 if thorough else 12):
         c = r.randrange(0x20, 0x110000)
         if not (0xd800 <= c <= 0xdfff):
             cs.append(c)
-    # ESC starts an escape sequence (strip_ansi_escapes), C1 controls may be read as 8-bit CSI by the
-    # escape stripper, F13 non-characters: not compared (CR is: it is removed before it reaches the XML)
-    skip = {0x1b, 0xfffe, 0xffff} | set(range(0x80, 0xa0))
-    return sorted({c for c in cs if c not in skip})
+    # Every scalar value is compared. The only code point left out of the PER-CHARACTER comparison is ESC
+    # (0x1b): it is not "a character outside an escape sequence" -- it starts one and swallows what
+    # follows, so the [c:A<c>B] frame does not survive. It is covered, like every other code point, by the
+    # whole-string comparison of the same outputs (check_stored_text) and by the escape-sequence texts.
+    return sorted(set(cs))
 
 
-def char_filter_scenario(chars):
+def gen_text(r):
+    """a short string dense in escape-sequence introducers, terminators, controls and non-characters"""
+    shape = r.random()
+    if shape < 0.25:      # a well-formed sequence followed by a tail
+        intro = r.choice(["[", "]", "P", "X", "^", "_", "(", "#", ""])
+        body = "".join(chr(r.choice(TEXT_ALPHABET)) for _ in range(r.randint(0, 6)))
+        fin = r.choice(["m", "\x07", "\x1b\\", "\x9c", "“", "ᜠ", "\x18", "", "qᜀ", "qᜠ"])
+        tail = "".join(chr(r.choice(TEXT_ALPHABET)) for _ in range(r.randint(0, 8)))
+        return "a\x1b" + intro + body + fin + tail + "z"
+    return "".join(chr(r.choice(TEXT_ALPHABET)) for _ in range(r.randint(1, 28)))
+
+
+def text_filter_scenario(chars, texts):
     r_ = __import__("random").Random(1)
-    bt = {"alpha::t1": {}}
+    bt = {"alpha::t1": {}, "beta::t1": {}}
     tests = []
+
+    def add(b, name, text, kind):
+        plan = {"pass": ["pass"], "fail": ["fail", "fail"], "flaky": ["fail", "pass"]}[kind]
+        bt[b][name] = {"attempts": [mk_attempt(name, k, ak, r_, text, quiet=True) for k, ak in enumerate(plan, 1)]}
+        tests.append({"bin": b, "name": name, "kind": kind, "ss": True, "sf": True, "selected": True,
+                      "plan": plan, "payloads": ["text-filter"]})
     for i in range(0, len(chars), 16):
-        name = f"chars{i // 16:02d}"
-        text = "".join(f"[{c}:A{chr(c)}B]\n" for c in chars[i:i + 16])
-        bt["alpha::t1"][name] = {"attempts": [mk_attempt(name, 1, "pass", r_, text, quiet=True)]}
-        tests.append({"bin": "alpha::t1", "name": name, "kind": "pass", "ss": True, "sf": True, "selected": True,
-                      "plan": ["pass"], "payloads": ["char-filter"]})
-    return finish_scenario(dict(idx=9000, family="char-filter", retries=0, ss=True, sf=True, fail_fast=False,
+        add("alpha::t1", f"chars{i // 16:02d}", "".join(f"[{c}:A{chr(c)}B]\n" for c in chars[i:i + 16]), "pass")
+    for i, t in enumerate(texts):
+        add("beta::t1", f"text{i:03d}", t, ["pass", "pass", "fail", "flaky"][i % 4])
+    return finish_scenario(dict(idx=9000, family="text-filter", retries=1, ss=True, sf=True, fail_fast=False,
                                 tests=tests, bin_tests=bt, overrides=[], scripts=[], threads=4))
 
 
+TEXT_FAMILIES = ("text-filter", "regression-F13", "hostile")
+TEXT_MAX = 4000
+
+
+def scripted_stdout(sc, b, name, attempt):
+    """what attempt `attempt` of the test writes to stdout, as the Rust string nextest stores
+    (String::from_utf8_lossy; Python's 'replace' handler substitutes the same maximal subparts)"""
+    try:
+        spec = sc["bin_tests"][b][name]["attempts"][attempt - 1].get("stdout") or {}
+    except (KeyError, IndexError):
+        return None
+    data = bytes.fromhex(spec["hex"]) if "hex" in spec else spec.get("text", "").encode()
+    return data.decode("utf-8", "replace")
+
+
+def check_stored_text(chk, scs, reps):
+    """corr:stored-text -- the text of every stored system-out (testcase and rerun elements) of the
+    text-carrying scenario families is exactly Model/Junit.v's stored_text of the scripted stdout:
+    whole strings, escape sequences, C0/C1 controls, U+FFFE/U+FFFF and invalid UTF-8 included"""
+    items = []
+    for sc, rep in zip(scs, reps):
+        if rep is None or sc["family"] not in TEXT_FAMILIES:
+            continue
+        for s_ in rep["suites"]:
+            for c in s_["cases"]:
+                for el in [c] + c["reruns"]:
+                    if not el.get("stored") or el.get("out") is None or not el.get("marker"):
+                        continue
+                    src = scripted_stdout(sc, s_["name"], c["name"], el["marker"][1])
+                    if src is None or len(src) > TEXT_MAX:
+                        chk.count("stored_text_skipped_long" if src is not None else "stored_text_skipped_unknown")
+                        continue
+                    items.append((sc, s_["name"], c["name"], el["marker"][1], src, el["out"]))
+    if not items:
+        return
+    want = vlib.coq_eval("c17t", IMPORTS, ["stored_text " + coq_list([str(ord(ch)) for ch in src])
+                                           for (_, _, _, _, src, _) in items])
+    for (sc, b, name, k, src, got), w in zip(items, want):
+        chk.count("stored_text_cases")
+        if any(ord(ch) == ESC for ch in src):
+            chk.count("stored_text_with_esc")
+        if any(ord(ch) in (0xfffe, 0xffff) for ch in src):
+            chk.count("stored_text_with_nonchar")
+        if [ord(ch) for ch in got] != list(w):
+            chk.violation("broken-obligation", "corr:stored-text",
+                          dict(input=dict(test=[b, name], attempt=k, stdout_codepoints=[ord(ch) for ch in src]),
+                               impl=[ord(ch) for ch in got], model=list(w),
+                               clause="the stored system-out text is stored_text (strip_str, XmlString filter, xml_safe) "
+                                      "of the captured stdout"), no_input=True)
+            return
+
+
 def check_char_filter(chk, chars, rep):
-    """the XML text of a stored output keeps exactly the characters xmlstring_keeps keeps"""
-    keeps = vlib.coq_eval("c17c", IMPORTS, [f"(b2n (xmlstring_keeps {c}), b2n (xml_char {c}))" for c in chars])
-    text = "".join(c["out"] or "" for s in rep["suites"] for c in s["cases"])
+    """per character outside escape sequences: the stored text keeps exactly what nextest_keeps keeps,
+    and what is kept is an XML 1.0 Char"""
+    chars = [c for c in chars if c != ESC]   # reason: see char_filter_cases
+    keeps = vlib.coq_eval("c17c", IMPORTS, [f"(b2n (nextest_keeps {c}), b2n (xml_char {c}))" for c in chars])
+    text = "".join(c["out"] or "" for s in rep["suites"] for c in s["cases"] if c["name"].startswith("chars"))
     for c, (k, valid) in zip(chars, keeps):
         chk.count("char_filter_cases")
         m = re.search(r"\[%d:A(.*?)B\]" % c, text, re.S)
@@ -788,7 +870,7 @@ def check_char_filter(chk, chars, rep):
         if got != want:
             chk.violation("counterexample" if (k and not valid) else "broken-obligation", "corr:xmlstring-filter",
                           dict(input=dict(char=c), impl=repr(got), model=dict(keeps=bool(k), xml_char=bool(valid)),
-                               clause="stored output text keeps exactly the characters XmlString::new keeps"),
+                               clause="stored output text keeps exactly the characters the repaired pipeline keeps"),
                           no_input=not (k and not valid))
             return
         if k and not valid:
@@ -816,36 +898,31 @@ def evaluate(chk, scs, obs, tag="c17"):
         exprs.append(f"obs {n} {evs}")
     models = [decode_model(v) for v in vlib.coq_eval(tag, IMPORTS, exprs, PRELUDE)]
     problems = 0
+    reps = []
     for sc, o, m in zip(scs, obs, models):
         chk.count("e2e_runs")
         chk.count(f"family_{sc['family']}")
         rep = err = None
-        known = False
         if o["junit"] is not None:
             rep, err = parse_junit(o["junit"])
-            if rep is None and has_known_nonchar(sc):
-                rep2, err2 = parse_junit(strip_nonchars(o["junit"]))
-                if rep2 is not None:
-                    # exactly the listed failure: the only obstacle to well-formedness is U+FFFE / U+FFFF
-                    known = True
-                    chk.known_finding("F13 JUnit file is not well-formed XML when stored test output (or a panic "
-                                      "message taken from it) contains U+FFFE or U+FFFF: quick-junit's XmlString "
-                                      "keeps these two non-characters, which XML 1.0 forbids")
-                    rep, err = rep2, None
+        reps.append(rep)
         bad = oracle(sc, o, rep, err)
         diffs = compare(sc, o, m, rep)
         histogram(chk, sc, o, rep)
         if bad:
             problems += 1
             chk.violation("counterexample", "oracle:" + sc["family"],
-                          dict(input=slim(sc), clause=bad, model_differences=diffs, impl=impl_digest(o, rep),
-                               known_class=known))
+                          dict(input=slim(sc), clause=bad, model_differences=diffs, impl=impl_digest(o, rep)))
         elif diffs:
             problems += 1
             chk.violation("broken-obligation", "corr:junit-stream",
                           dict(input=slim(sc), differences=diffs, impl=impl_digest(o, rep),
                                note="model and implementation disagree; the property oracle accepted this run"),
                           no_input=True)
+    before = len(chk.violations) if hasattr(chk, "violations") else None
+    check_stored_text(chk, scs, reps)
+    if before is not None and len(chk.violations) > before:
+        problems += 1
     return problems
 
 
@@ -924,7 +1001,8 @@ def run(tier, seed):
         scs.append(gen_scenario(r, idx, "hostile"))
         idx += 1
     chars = char_filter_cases(r, thorough)
-    cf = char_filter_scenario(chars)
+    texts = FIXED_TEXTS + [gen_text(r) for _ in range(160 if thorough else 24)]
+    cf = text_filter_scenario(chars, texts)
     scs.append(cf)
     obs = run_all(rig, scs)
     evaluate(chk, scs, obs)
